@@ -149,6 +149,33 @@ def run_check(pid, tier, seed, t0):
                                % x["name"])
             else:
                 undecided.append("%s (%s): %s" % (x["name"], t["mode"], x["detail"]))
+    # ------------------------------------------------------------ CPython cross-check
+    # engine soundness evidence on every run: sampled exit paths of the functions of this
+    # cone, model -> native inputs -> real function, compared with the symbolic result
+    xc = {"compared": 0, "disagreements": 0, "skipped": {}}
+    try:
+        import random as _random
+        from pyvc import crosscheck as _X
+        _rnd = _random.Random(seed)
+        cand = []
+        for t in tasks:
+            if t["kind"] == "verify" and not t["key"].startswith("ghost:") and \
+                    not t.get("region") and _X.eligible(reg[t["key"]]):
+                cand.append((t["key"], t["case"], t["mode"], _rnd.randint(0, 10 ** 6)))
+        _rnd.shuffle(cand)
+        cand = cand[:(24 if tier == "quick" else 240)]
+        if cand:
+            import multiprocessing as _mp
+            with _mp.get_context("fork").Pool(min(16, len(cand))) as pool:
+                for (t_, n_, bad_, skip_) in pool.imap_unordered(_xc_job, cand, chunksize=2):
+                    xc["compared"] += n_
+                    xc["disagreements"] += len(bad_)
+                    if skip_:
+                        xc["skipped"][t_[0]] = skip_
+                    for b_ in bad_[:3]:
+                        crashed.append("engine/CPython disagreement: " + b_[:400])
+    except Exception as e:           # the cross-check itself must never decide a property
+        xc["error"] = "%s: %s" % (type(e).__name__, str(e)[:200])
     # ------------------------------------------------------------ custom obligations
     # (static footprint / frame obligations over the real AST: props.<id>.custom)
     custom_fail = []
@@ -343,6 +370,7 @@ def run_check(pid, tier, seed, t0):
         "tasks": len(tasks),
         "lemmas": list(getattr(prop, "LEMMAS", [])),
         "canaries_refuted": canary_ok,
+        "engine_crosscheck_cpython": xc,
         "bounded": bounded,
         "undecided": undecided[:50],
         "refuted": ([x["name"] for (_, x) in refuted] +
@@ -389,6 +417,20 @@ def run_check(pid, tier, seed, t0):
             print("UNDECIDED: " + u[:500])
         return 2
     return 0
+
+
+def _xc_job(t):
+    key, cname, mode, seed = t
+    from pyvc.run import get_engine
+    from pyvc import crosscheck as X
+    E = get_engine(mode)
+    c = E.contracts[key]
+    case = [k for k in c.cases if k.name == cname][0]
+    try:
+        n, bad, skip = X.crosscheck(E, key, case, mode, per_case=2, seed=seed)
+    except Exception as ex:
+        return (t, 0, [], "not compared (%s: %s)" % (type(ex).__name__, str(ex)[:120]))
+    return (t, n, bad, skip)
 
 
 def do_replay(path, search=None, seed=0):
